@@ -855,6 +855,23 @@ func gamma_p_derivative_imp(a, x float64) float64 {
 }
 
 func gamma_p_second_derivative_imp(a, x float64) float64 {
+  if x == 0.0 && a > 0.0 {
+    // limit of ((a-1)/x - 1) x^(a-1) exp(-x) / Gamma(a) for x -> 0
+    if a > 2.0 {
+      return 0.0
+    } else
+    if a == 2.0 {
+      return 1.0
+    } else
+    if a > 1.0 {
+      return math.Inf(1)
+    } else
+    if a == 1.0 {
+      return -1.0
+    } else {
+      return math.Inf(-1)
+    }
+  }
   t := gamma_p_derivative_imp(a, x)
   return (a-1.0)*t/x - t
 }
